@@ -262,7 +262,7 @@ theorem marked_length {M : List Dart} (hM : Marked y M)
     branching numbers > 1 of the 2-orbits with a mirror -/
 theorem traceBoundary_corners (rep : Rep) :
     ∃ bnds, traceBoundary ⟨y, rep⟩ = .ok bnds ∧ bnds.flatten.Perm (cornersOf (typesOf y)) := by
-  obtain ⟨bnds, M, hb, hM, hperm, hall⟩ := traceBoundary_marked h hdim rep
+  obtain ⟨bnds, M, hb, hM, hperm, hall, _⟩ := traceBoundary_marked h hdim rep
   refine ⟨bnds, hb, hperm.trans ?_⟩
   rw [cornersOf_types]
   apply List.Perm.filter
